@@ -722,6 +722,66 @@ theorem cleanup_spec_core (s : Names) (first second : Str) (hs : s.Nodup) (hne :
     apply h
     simp [h1, h2]
 
+/-! ### histidine naming -/
+
+theorem dropIf_spec (s : Names) (n : Str) (hs : s.Nodup) :
+    n ∉ dropIf s n ∧ (∀ m, m ≠ n → (m ∈ dropIf s n ↔ m ∈ s)) ∧ (dropIf s n).Nodup := by
+  unfold dropIf remove
+  by_cases h : s.contains n = true
+  · rw [if_pos h]
+    refine ⟨fun hm => absurd rfl ((hs.mem_erase_iff).1 hm).1, ?_, hs.erase _⟩
+    intro m hm
+    rw [hs.mem_erase_iff]
+    exact ⟨fun h => h.2, fun h => ⟨hm, h⟩⟩
+  · rw [if_neg h]
+    refine ⟨fun hm => h (List.contains_iff_mem.2 hm), fun _ _ => Iff.rfl, hs⟩
+
+/-- a neutral histidine that carries both ring protons ends with exactly one of them, everything
+else untouched, and is named after the one it keeps; a doubly protonated one keeps both -/
+theorem his_state_clean_core (hip nd1D nd1A ne2D ne2A : Bool) (s : Names) (hs : s.Nodup)
+    (h1 : str "HD1" ∈ s) (h2 : str "HE2" ∈ s) :
+    (hisSetState hip nd1D nd1A ne2D ne2A s).Nodup ∧
+    (∀ m, m ≠ str "HD1" → m ≠ str "HE2" → (m ∈ hisSetState hip nd1D nd1A ne2D ne2A s ↔ m ∈ s)) ∧
+    (hip = true → hisSetState hip nd1D nd1A ne2D ne2A s = s ∧ hisName (hisSetState hip nd1D nd1A ne2D ne2A s) = some (str "HIP")) ∧
+    (hip = false →
+      ((str "HD1" ∈ hisSetState hip nd1D nd1A ne2D ne2A s ∧ str "HE2" ∉ hisSetState hip nd1D nd1A ne2D ne2A s ∧
+          hisName (hisSetState hip nd1D nd1A ne2D ne2A s) = some (str "HID")) ∨
+       (str "HE2" ∈ hisSetState hip nd1D nd1A ne2D ne2A s ∧ str "HD1" ∉ hisSetState hip nd1D nd1A ne2D ne2A s ∧
+          hisName (hisSetState hip nd1D nd1A ne2D ne2A s) = some (str "HIE")))) := by
+  have hne : str "HD1" ≠ str "HE2" := by decide
+  have dropE := dropIf_spec s (str "HE2") hs
+  have dropD := dropIf_spec s (str "HD1") hs
+  have keepD : str "HD1" ∈ dropIf s (str "HE2") := (dropE.2.1 _ hne).2 h1
+  have keepE : str "HE2" ∈ dropIf s (str "HD1") := (dropD.2.1 _ hne.symm).2 h2
+  have nameD : hisName (dropIf s (str "HE2")) = some (str "HID") := by
+    simp [hisName, keepD, dropE.1]
+  have nameE : hisName (dropIf s (str "HD1")) = some (str "HIE") := by
+    simp [hisName, keepE, dropD.1]
+  cases hip
+  · -- neutral
+    have hdef : hisSetState false nd1D nd1A ne2D ne2A s =
+        (if (nd1D && !nd1A) = true then dropIf s (str "HE2")
+         else if ((ne2D && !ne2A) || (nd1A && !nd1D)) = true then dropIf s (str "HD1")
+         else dropIf s (str "HE2")) := by
+      simp [hisSetState]
+    rw [hdef]
+    by_cases c1 : (nd1D && !nd1A) = true
+    · rw [if_pos c1]
+      exact ⟨dropE.2.2, fun m _ hm => dropE.2.1 m hm, fun h => absurd h (by decide),
+        fun _ => Or.inl ⟨keepD, dropE.1, nameD⟩⟩
+    · rw [if_neg c1]
+      by_cases c2 : ((ne2D && !ne2A) || (nd1A && !nd1D)) = true
+      · rw [if_pos c2]
+        exact ⟨dropD.2.2, fun m hm _ => dropD.2.1 m hm, fun h => absurd h (by decide),
+          fun _ => Or.inr ⟨keepE, dropD.1, nameE⟩⟩
+      · rw [if_neg c2]
+        exact ⟨dropE.2.2, fun m _ hm => dropE.2.1 m hm, fun h => absurd h (by decide),
+          fun _ => Or.inl ⟨keepD, dropE.1, nameD⟩⟩
+  · have hdef : hisSetState true nd1D nd1A ne2D ne2A s = s := by simp [hisSetState]
+    rw [hdef]
+    refine ⟨hs, fun _ _ _ => Iff.rfl, fun _ => ⟨rfl, ?_⟩, fun h => absurd h (by decide)⟩
+    simp [hisName, h1, h2]
+
 /-! ### repair and hydrogen addition -/
 
 theorem isExtra_false_of_mem_ref {refNames : List Str} (s : Names) {n : Str} (hr : n ∈ refNames) :
